@@ -53,7 +53,7 @@ def query_bytes(kind: str) -> Tuple[bytes, int]:
 def grid(tier: str) -> List[Dict[str, Any]]:
     pts = []
     offsets = OFFSETS if tier != "quick" else [1, 21, 119, 250, 401, 499, 999, 1199]
-    modes = ["unregister", "async_close", "sync_close"]
+    modes = ["unregister", "unregister_all", "async_close", "sync_close"]
     seconds = [None, -300, 60] if tier != "quick" else [None, -300]
     jit = [0.0, 1.0] if tier == "quick" else [0.0, 0.5, 1.0]
     for kind, d, j, shape, mode, second in itertools.product(KINDS, offsets, jit, SHAPES, modes, seconds):
@@ -93,6 +93,10 @@ def run_point(p: Dict[str, Any], verbose: bool = False) -> Tuple[Optional[Dict[s
             task = w.spawn(_unreg(host, infos[0]))
             withdrawn_svcs = [svcs[0]]
             with_addr = p["shape"] != "shared-host"
+        elif mode == "unregister_all":
+            task = w.spawn(host.azc.async_unregister_all_services())
+            withdrawn_svcs = svcs
+            with_addr = True
         elif mode == "async_close":
             task = w.spawn(host.azc.async_close())
             withdrawn_svcs = svcs
